@@ -187,8 +187,8 @@ def run(ctx):
         ctx.discharged += 1
     ng, nacc = run_grid(ctx)
     n1 = covering(ctx)
-    n2 = random_files(ctx, 400 if ctx.thorough() else 40)
-    n3 = malformed(ctx, 20000 if ctx.thorough() else 1500)
+    n2 = random_files(ctx, 3000 if ctx.thorough() else 40)
+    n3 = malformed(ctx, 150000 if ctx.thorough() else 1500)
     ctx.cov['evaluations'] = ng + n1 + n2 + n3
     ctx.cov['distinct_nontrivial'] = ng + n1 // 3
     ctx.cov['rule'] = ('grid keyword x 0..11 (thorough 0..14) numeric parameters x 0..3 (0..5) names in three modes for the model correspondence '
